@@ -523,3 +523,17 @@ V("c07-twin-split-every-local", "C07", "-", "dask_array/reductions/_reduction.py
   ("dask_array/reductions/_reduction.py", "            _normalize_split_every(split_every, axis),\n            combine,", "            fan_in,\n            combine,"),
   ("dask_array/reductions/_reduction.py", "    # Create the Reduction expression\n    result = new_collection(", "    # Create the Reduction expression\n    fan_in = _normalize_split_every(split_every, axis)\n    result = new_collection("),
 ])
+
+# ---------------------------------------------------------------------------- C09 R09.7
+V("c09-lower-unifies-live", "C09", "R09.7", "dask_array/_blockwise.py", None, None, expect="array.unify-chunks-policy", edits=[
+  ("dask_array/_blockwise.py", "    def _lower(self):\n        if self.align_arrays:\n            _, arrays, changed = self._unified_args()\n            if changed:\n                args = []",
+   "    def _lower(self):\n        if self.align_arrays:\n            _, arrays, changed = unify_chunks_expr(*self.args)\n            if changed:\n                args = []"),
+])
+V("c09-unify-pin-not-cached", "C09", "R09.7", "dask_array/_blockwise.py",
+  "    @cached_property\n    def _unify_config(self):", "    @property\n    def _unify_config(self):", expect="array.unify-chunks")
+V("c09-chunks-unifies-live", "C09", "R09.7", "dask_array/_blockwise.py",
+  "            chunkss, arrays, _ = self._unified_args()\n", "            chunkss, arrays, _ = unify_chunks_expr(*self.args)\n", expect="array.unify-chunks")
+V("c09-twin-pin-renamed", "C09", "-", "dask_array/_blockwise.py", None, None, twin=True, edits=[
+  ("dask_array/_blockwise.py", "    def _unify_config(self):", "    def _planned_under(self):"),
+  ("dask_array/_blockwise.py", "        with config.set(self._unify_config):", "        with config.set(self._planned_under):"),
+])
